@@ -526,6 +526,60 @@ def slipVectorCall (c : Cell K) (pos0 pos1 : Nat → V3 K) (neighbors cutoff att
   | .error e => .error e
   | .ok nl => .ok (slipVector c pos0 pos1 (nl i) i)
 
+/-- `slip_vector(system_0, system_1, neighbors, cutoff)` including the atom-count check (`n0`, `n1`), which comes BEFORE
+    the neighbour block: two systems of different size are a `ValueError` whatever else is wrong with the call. -/
+def slipVectorEntry (n0 n1 : Nat) (c : Cell K) (pos0 pos1 : Nat → V3 K) (neighbors cutoff attr : Option (Nat → List Nat))
+    (i : Nat) : Except NbrErr (V3 K) :=
+  if n0 ≠ n1 then .error .value else slipVectorCall c pos0 pos1 neighbors cutoff attr i
+
+/-- the refusals of `slip_vector` alone (which source, or which exception). -/
+def slipVectorRefusals {L : Type} (n0 n1 : Nat) (neighbors cutoff attr : Option L) : Except NbrErr L :=
+  if n0 ≠ n1 then .error .value else pickNeighbors neighbors cutoff attr
+
+/-! ### `Strain.asdict(properties)` / `save_to_system(properties)`: which keys are read -/
+
+/-- the property names the two methods accept, and the ones they take when `properties` is `None`. -/
+def allKeyNames : List String := ["G", "rotation", "strain", "invariant1", "invariant2", "invariant3", "angularvelocity", "nye"]
+def defaultKeyNames : List String := ["strain", "invariant1", "invariant2", "invariant3", "angularvelocity", "nye"]
+
+def keyOf (k : String) : Option SProp :=
+  if k = "G" then some .G else if k = "rotation" then some .rotation else if k = "strain" then some .strain
+  else if k = "invariant1" then some .inv1 else if k = "invariant2" then some .inv2 else if k = "invariant3" then some .inv3
+  else if k = "angularvelocity" then some .angvel2 else if k = "nye" then some .nye else none
+
+/-- the loop `for p in properties: assert p in allkeys; results[p] = getattr(self, p)`: the properties read, in order,
+    up to the first unknown name; `true` = an unknown name stops the call there (`AssertionError`; what was read before
+    it stays cached). -/
+def planKeys : List String → List SProp × Bool
+  | [] => ([], false)
+  | k :: ks =>
+    match keyOf k with
+    | none => ([], true)
+    | some p => let r := planKeys ks; (p :: r.1, r.2)
+
+def asdictPlan (props : Option (List String)) : List SProp × Bool := planKeys (props.getD defaultKeyNames)
+
+/-- the reads of `asdict`: they stop at the first read that fails (`ValueError` of `solve_G` without p vectors). -/
+def SObj.readsUntil (mag : V3 K → K) (big : K) (o : SObj K) : List SProp → SObj K × Option (List (Payload K))
+  | [] => (o, some [])
+  | p :: ps =>
+    let r := o.read mag big p
+    match r.2 with
+    | none => (r.1, none)
+    | some v =>
+      let rest := SObj.readsUntil mag big r.1 ps
+      (rest.1, rest.2.map (v :: ·))
+
+/-- `asdict(properties)`: object afterwards and the values in key order, `ValueError` of a failing read, or the
+    `AssertionError` of an unknown key (raised after the reads before it). -/
+def SObj.asdict (mag : V3 K → K) (big : K) (o : SObj K) (props : Option (List String)) :
+    SObj K × Except NbrErr (List (Payload K)) :=
+  let plan := asdictPlan props
+  let r := o.readsUntil mag big plan.1
+  match r.2 with
+  | none => (r.1, .error .value)
+  | some vs => (r.1, if plan.2 then .error .assert else .ok vs)
+
 /-! ### the `DifferentialDisplacement` object -/
 
 structure Sys (K : Type) where
